@@ -421,10 +421,12 @@ impl OPWKinematics {
             matrix[(0, 2)] * s23[3] * cos1[3] + matrix[(1, 2)] * s23[3] * sin1[3] + matrix[(2, 2)] * c23[3],
         ];
 
-        let theta5_i = f64::atan2((1.0 - m[0] * m[0]).sqrt(), m[0]);
-        let theta5_ii = f64::atan2((1.0 - m[1] * m[1]).sqrt(), m[1]);
-        let theta5_iii = f64::atan2((1.0 - m[2] * m[2]).sqrt(), m[2]);
-        let theta5_iv = f64::atan2((1.0 - m[3] * m[3]).sqrt(), m[3]);
+        // m is the cosine of J5; rounding may push it an ulp beyond 1 when J5 is exactly 0
+        // (the square root of the then negative value would discard the whole branch as NaN).
+        let theta5_i = f64::atan2((1.0 - m[0] * m[0]).max(0.0).sqrt(), m[0]);
+        let theta5_ii = f64::atan2((1.0 - m[1] * m[1]).max(0.0).sqrt(), m[1]);
+        let theta5_iii = f64::atan2((1.0 - m[2] * m[2]).max(0.0).sqrt(), m[2]);
+        let theta5_iv = f64::atan2((1.0 - m[3] * m[3]).max(0.0).sqrt(), m[3]);
 
         let theta5_v = -theta5_i;
         let theta5_vi = -theta5_ii;
@@ -633,10 +635,12 @@ impl OPWKinematics {
             matrix[(0, 2)] * s23[3] * cos1[3] + matrix[(1, 2)] * s23[3] * sin1[3] + matrix[(2, 2)] * c23[3],
         ];
 
-        let theta5_i = f64::atan2((1.0 - m[0] * m[0]).sqrt(), m[0]);
-        let theta5_ii = f64::atan2((1.0 - m[1] * m[1]).sqrt(), m[1]);
-        let theta5_iii = f64::atan2((1.0 - m[2] * m[2]).sqrt(), m[2]);
-        let theta5_iv = f64::atan2((1.0 - m[3] * m[3]).sqrt(), m[3]);
+        // m is the cosine of J5; rounding may push it an ulp beyond 1 when J5 is exactly 0
+        // (the square root of the then negative value would discard the whole branch as NaN).
+        let theta5_i = f64::atan2((1.0 - m[0] * m[0]).max(0.0).sqrt(), m[0]);
+        let theta5_ii = f64::atan2((1.0 - m[1] * m[1]).max(0.0).sqrt(), m[1]);
+        let theta5_iii = f64::atan2((1.0 - m[2] * m[2]).max(0.0).sqrt(), m[2]);
+        let theta5_iv = f64::atan2((1.0 - m[3] * m[3]).max(0.0).sqrt(), m[3]);
 
         let theta5_v = -theta5_i;
         let theta5_vi = -theta5_ii;
